@@ -240,26 +240,26 @@ var msgIDPool = []int64{0, 1, 2, 127, 128, 255, 256, 32767, 32768, 65535, 65536,
 
 // ReqSpec is the client-side description of one request.
 type ReqSpec struct {
-	Kind     string `json:"kind"` // bind search modify add delete extended unbind
-	ID       int64  `json:"id"`
-	Version  int64  `json:"version,omitempty"`
-	Name     []byte `json:"name,omitempty"` // bind name / extended name
-	Password []byte `json:"password,omitempty"`
-	DN       []byte `json:"dn,omitempty"` // search base / modify / add / delete DN
-	Scope    int64  `json:"scope,omitempty"`
-	Deref    int64  `json:"deref,omitempty"`
-	Size     int64  `json:"size,omitempty"`
-	Time     int64  `json:"time,omitempty"`
-	Types    bool   `json:"types,omitempty"`
-	Filter   string `json:"filter,omitempty"` // string form accepted by go-ldap
+	Kind      string `json:"kind"` // bind search modify add delete extended unbind
+	ID        int64  `json:"id"`
+	Version   int64  `json:"version,omitempty"`
+	Name      []byte `json:"name,omitempty"` // bind name / extended name
+	Password  []byte `json:"password,omitempty"`
+	DN        []byte `json:"dn,omitempty"` // search base / modify / add / delete DN
+	Scope     int64  `json:"scope,omitempty"`
+	Deref     int64  `json:"deref,omitempty"`
+	Size      int64  `json:"size,omitempty"`
+	Time      int64  `json:"time,omitempty"`
+	Types     bool   `json:"types,omitempty"`
+	Filter    string `json:"filter,omitempty"` // string form accepted by go-ldap
 	filterBER []byte
-	Attrs    [][]byte      `json:"attrs,omitempty"`
-	AddAttrs []sber.Attr   `json:"add_attrs,omitempty"`
-	Changes  []sber.Change `json:"changes,omitempty"`
-	ExtValue []byte        `json:"ext_value,omitempty"`
-	HasExtV  bool          `json:"has_ext_value,omitempty"`
-	Controls []CtlSpec     `json:"controls,omitempty"`
-	HasCtls  bool          `json:"has_controls,omitempty"` // emit the [0] element even when empty
+	Attrs     [][]byte      `json:"attrs,omitempty"`
+	AddAttrs  []sber.Attr   `json:"add_attrs,omitempty"`
+	Changes   []sber.Change `json:"changes,omitempty"`
+	ExtValue  []byte        `json:"ext_value,omitempty"`
+	HasExtV   bool          `json:"has_ext_value,omitempty"`
+	Controls  []CtlSpec     `json:"controls,omitempty"`
+	HasCtls   bool          `json:"has_controls,omitempty"` // emit the [0] element even when empty
 }
 
 // Op renders the protocolOp.
@@ -561,23 +561,23 @@ type ObsCtl struct {
 
 // Obs is what a handler observed for one request, through the public API only.
 type Obs struct {
-	Seq      int64  `json:"seq"`
-	Route    string `json:"route"`
-	Kind     string `json:"kind"` // by which Get*Message succeeded
-	Kinds    int    `json:"kinds"` // how many Get*Message calls succeeded
-	ID       int64  `json:"id"`
-	ReqID    int    `json:"req_id"`
-	ConnID   int    `json:"conn_id"`
-	Name     []byte `json:"name,omitempty"`
-	Password []byte `json:"password,omitempty"`
-	Auth     string `json:"auth,omitempty"`
-	DN       []byte `json:"dn,omitempty"`
-	Scope    int64  `json:"scope"`
-	Deref    int64  `json:"deref"`
-	Size     int64  `json:"size"`
-	Time     int64  `json:"time"`
-	Types    bool   `json:"types"`
-	Filter   string `json:"filter,omitempty"`
+	Seq      int64         `json:"seq"`
+	Route    string        `json:"route"`
+	Kind     string        `json:"kind"`  // by which Get*Message succeeded
+	Kinds    int           `json:"kinds"` // how many Get*Message calls succeeded
+	ID       int64         `json:"id"`
+	ReqID    int           `json:"req_id"`
+	ConnID   int           `json:"conn_id"`
+	Name     []byte        `json:"name,omitempty"`
+	Password []byte        `json:"password,omitempty"`
+	Auth     string        `json:"auth,omitempty"`
+	DN       []byte        `json:"dn,omitempty"`
+	Scope    int64         `json:"scope"`
+	Deref    int64         `json:"deref"`
+	Size     int64         `json:"size"`
+	Time     int64         `json:"time"`
+	Types    bool          `json:"types"`
+	Filter   string        `json:"filter,omitempty"`
 	Attrs    [][]byte      `json:"attrs,omitempty"`
 	AddAttrs []sber.Attr   `json:"add_attrs,omitempty"`
 	Changes  []sber.Change `json:"changes,omitempty"`
